@@ -7,7 +7,7 @@ CONSTANTS
   MaxUpd = 3
   WritesPerRead = 3
   VersionRules = {"cur+1"}
-  WriteGuards = {TRUE}
+  WriteGuards = {2}
   ReuseSlots = TRUE
   EagerFinish = FALSE
   RecordHist = FALSE
@@ -20,6 +20,7 @@ INVARIANTS
   C07_QueuedInMap
   C07_NoLostUpdate
   C07_PendingCarried
+  NoOrphan
 PROPERTIES
   C07_MonotonicWrites
 CHECK_DEADLOCK FALSE
